@@ -113,6 +113,11 @@ for line in sys.stdin:
     if toks[0] == 'END':
         break
     cmd, mid = toks[0], toks[1]
+    if cmd in ('REG', 'UNREG'):
+        import checksum as _cs
+        (_cs.register if cmd == 'REG' else _cs.unregister)(toks[2])
+        out.write('OK %s\n' % mid)
+        continue
     if MOD is None:
         out.write('ERR %s load %s\n' % (mid, oneline(LOAD_ERR)))
         continue
